@@ -249,9 +249,31 @@ def t_floatValue(t):
     return t
 
 
+# Maximum length of a numeric literal. The largest CIM integer type (64 bit)
+# needs 65 characters in binary notation plus the sign; anything much longer
+# cannot be a valid value, and Python limits the length of decimal strings
+# it converts to int.
+MAX_NUMERIC_LITERAL_LENGTH = 100
+
+
+def _too_long_numeric(t):
+    """
+    Turn the numeric token into an error token if it has too many characters
+    to be a valid CIM numeric value, and return whether that was the case.
+    """
+    if len(t.value) > MAX_NUMERIC_LITERAL_LENGTH:
+        t.lexer.last_msg = _format(
+            "Numeric literal with {0} characters is too long: {1!A}...",
+            len(t.value), t.value[0:20])
+        t.type = 'error'
+        return True
+    return False
+
+
 def t_hexValue(t):
     r'[+-]?0[xX][0-9a-fA-F]+'
-    t.value = int(t.value, 16)
+    if not _too_long_numeric(t):
+        t.value = int(t.value, 16)
     return t
 
 
@@ -260,7 +282,9 @@ def t_binaryValue(t):
     # We must match [0-9], and then check the validity of the binary number.
     # If we match [0-1], the invalid binary number "2b" would match
     # 'decimalValue' 2 and 'IDENTIFIER 'b'.
-    if re.search(r'[2-9]', t.value) is not None:
+    if _too_long_numeric(t):
+        pass
+    elif re.search(r'[2-9]', t.value) is not None:
         msg = _format("Invalid binary number {0!A}", t.value)
         t.lexer.last_msg = msg
         t.type = 'error'
@@ -275,7 +299,9 @@ def t_octalValue(t):
     # We must match [0-9], and then check the validity of the octal number.
     # If we match [0-7], the invalid octal number "08" would match
     # 'decimalValue' 0 and 'decimalValue' 8.
-    if re.search(r'[8-9]', t.value) is not None:
+    if _too_long_numeric(t):
+        pass
+    elif re.search(r'[8-9]', t.value) is not None:
         msg = _format("Invalid octal number {0!A}", t.value)
         t.lexer.last_msg = msg
         t.type = 'error'
@@ -289,7 +315,8 @@ def t_octalValue(t):
 # the 0. If not at the end, 0 would match at the begin of e.g. an octal value.
 def t_decimalValue(t):
     r'[+-]?([1-9][0-9]*|0)'
-    t.value = int(t.value)
+    if not _too_long_numeric(t):
+        t.value = int(t.value)
     return t
 
 
